@@ -173,6 +173,34 @@ let handle (r : reader) : unit =
       let l = next_ranges r in
       out_s "OK";
       out_ranges (canon_of l)
+  | "BCELLS" ->
+      let q = next_qty r in
+      let w = next_n r in
+      let d = next_n r in
+      let cells = next_list r next_n in
+      out_s "OK"; out_n d;
+      out_ranges (build_cells q w d cells)
+  | "BRANGES" ->
+      let q = next_qty r in
+      let w = next_n r in
+      let d = next_n r in
+      let l = next_ranges r in
+      out_s "OK"; out_n d;
+      out_ranges (build_ranges q w d l)
+  | "BDCELLS" ->
+      let q = next_qty r in
+      let w = next_n r in
+      let d = next_n r in
+      let l = next_ranges r in
+      out_s "OK"; out_n d;
+      out_ranges (build_dcells q w d l)
+  | "KWAY" ->
+      let o = next_op2 r in
+      let q = next_qty r in
+      let w = next_n r in
+      let l = next_list r (fun r -> let d = next_n r in let l = next_ranges r in (d, l)) in
+      out_s "OK";
+      out_moc (kway o q w l)
   | "EXPR" ->
       let q = next_qty r in
       let w = next_n r in
